@@ -303,8 +303,10 @@ def run(ctx, obs, prop: str):
     obs.analysed['sweep_triangular_solves'] = triangular_solve(ctx, obs, pre)
     # C15: a pair without a valid product is NaN by contract, so the values combined after the compiled kernel may be NaN and a
     # dense 0/1 indicator product would spread one NaN over all pairs; elsewhere the indicator products act on NaN-free vectors
-    obs.analysed['sweep_mask_weight'] = mask_as_weight(ctx, obs, pre + EXTRA_SELECT_SCOPE.get(prop, []),
-                                                       indicator_helpers=INDICATOR_HELPERS if prop == 'C15' else ())
+    # only where missing measurements (NaN) are legal input of the functions in scope: datasets (C01, C02, C11, C14, C15)
+    if prop in ('C01', 'C02', 'C11', 'C14', 'C15'):
+        obs.analysed['sweep_mask_weight'] = mask_as_weight(ctx, obs, pre + EXTRA_SELECT_SCOPE.get(prop, []),
+                                                           indicator_helpers=INDICATOR_HELPERS if prop == 'C15' else ())
     obs.analysed['sweep_run_lengths'] = run_lengths(ctx, obs, pre + EXTRA_SELECT_SCOPE.get(prop, []))
     sel = pre + EXTRA_SELECT_SCOPE.get(prop, [])
     obs.analysed['sweep_tolerance_selections'] = tolerance_selection(ctx, obs, sel)
@@ -909,6 +911,11 @@ def loop_carry(ctx, obs, prefixes: Sequence[str], rule='LOOP-CARRY') -> int:
             continue
         for lp in loops:
             inside = [x for st in lp.body for x in ast.walk(st)]
+            # a loop over ITEMS reads its loop variable; `for _ in range(n_iter)` (fixed-point / restart iterations) is an
+            # algorithm whose whole point is the carried state
+            lvars = {x.id for x in ast.walk(lp.target) if isinstance(x, ast.Name)}
+            if not any(isinstance(x, ast.Name) and isinstance(x.ctx, ast.Load) and x.id in lvars for x in inside):
+                continue
             n += 1
             found = None
             for st in inside:
